@@ -467,8 +467,9 @@ def dedicated(ctx, emit_funcs, summaries):
         ok = want is not None
         seen = 0
         for em, r, ts, ps in paths_tpl(q):
-            its = [(ast.unparse(t), ast.unparse(i)) for t, i in r.iters.values()]
-            ok = ok and its == [("(k, v)", "self.flags.items()")]
+            its = list(r.iters.values())
+            ok = ok and len(its) == 1 and ast.unparse(its[0][1]) == "self.flags.items()" and isinstance(its[0][0], ast.Tuple) and len(its[0][0].elts) == 2
+            kvar, vvar = (e.id for e in its[0][0].elts) if ok else ("k", "v")
             for p in ps:
                 news = [e for e in p.events if e.kind == "NEW" and e["cls"] == "Container"]
                 subs = [e for e in p.events if e.kind == "SUB"]
@@ -476,9 +477,9 @@ def dedicated(ctx, emit_funcs, summaries):
                     for kname, v in nw["kw"]:
                         seen += 1
                         hole = r.holes.get(kname)
-                        ok = ok and hole is not None and ast.unparse(hole.node) == "k"
+                        ok = ok and hole is not None and ast.unparse(hole.node) == kvar
                         inner = v[2][0] if v[0] == "call" and v[1] == ("free", "bool") and len(v[2]) == 1 else v
-                        m = {("free", "v"): ("V",)}
+                        m = {("free", vvar): ("V",)}
                         if subs:
                             m[subs[0]["res"]] = ("X",)
                         ok = ok and N.rebuild(inner, m) == want
@@ -534,12 +535,15 @@ def dedicated(ctx, emit_funcs, summaries):
         fi = emit_funcs[q][0]
         ok = bool(_tmpl(summaries, q))
         for em, r, ts, ps in paths_tpl(q):
-            its = [(ast.unparse(t), ast.unparse(i)) for t, i in r.iters.values()]
-            ok = ok and its == [("(key, sc)", "self.cases.items()")]
-            keyh = [h for h in r.holes.values() if ast.unparse(h.node) == "key"]
+            its = list(r.iters.values())
+            ok = ok and len(its) == 1 and ast.unparse(its[0][1]) == "self.cases.items()" and isinstance(its[0][0], ast.Tuple) and len(its[0][0].elts) == 2
+            if not ok:
+                break
+            kname, cname = (e.id for e in its[0][0].elts)
+            keyh = [h for h in r.holes.values() if isinstance(h.node, ast.Name) and h.node.id == kname]
             ok = ok and len(keyh) == 1 and keyh[0].conv == "repr"
             tg = sorted(ast.unparse(s_.target) for s_ in r.subs.values())
-            ok = ok and tg == ["sc", "self.default"]
+            ok = ok and tg == sorted([cname, "self.default"])
             for p in ps:
                 if not p.returns:
                     continue
